@@ -107,7 +107,23 @@ func c19RunPair(out *zzverif.Out, p c19Pair) {
 	// L2 on what the real chatPrompt produced: the runner accepts it, every tag N consumes the
 	// image at position N, the text between the tags is the prompt without the tags.
 	if !p.hyp {
-		out.Count("l2_skip_literal_tag_in_text")
+		// Finding F5: some message text spells `[img-`.  The end-to-end clauses are evaluated all the same and
+		// labelled: the runner accepts the prompt; every returned image is embedded exactly once.
+		out.Count("l2_literal_tag_in_text_evaluated")
+		const label = "literal image tag in message text: "
+		if err != nil {
+			out.L2("runner-rejects-prompt", line, label+"inputs() fails on a pair produced by chatPrompt: "+err.Error())
+			return
+		}
+		used := map[string]int{}
+		for _, d := range fm.encoded {
+			used[d]++
+		}
+		for i := range p.ids {
+			if c := used[fmt.Sprintf("D%d", i)]; c != 1 {
+				out.L2("runner-image-consumed-not-once", line, fmt.Sprintf("%sthe image at position %d (id %d) of the list chatPrompt returned is embedded %d times", label, i, p.ids[i], c))
+			}
+		}
 		return
 	}
 	if err != nil {
@@ -211,5 +227,25 @@ func TestVerifC19Runner(t *testing.T) {
 			}
 		}
 		c19RunPair(out, pr)
+	}
+}
+
+// TestVerifC19ProbeLiteralTag: finding F5 on the real runner code, no model involved.  The (prompt, images)
+// pairs are what the real chatPrompt returns for [user "see [img-0]" + one image] and for [user "[img-5]"]
+// (server/TestVerifC19ProbeLiteralTag prints them): the image is embedded twice / the request fails.
+func TestVerifC19ProbeLiteralTag(t *testing.T) {
+	fm := &c19Model{}
+	s := &Server{model: fm}
+	_, _, err := s.inputs("[user|[img-0]see [img-0]]", []llm.ImageData{{ID: 0, Data: []byte("IMG")}})
+	t.Logf("literal tag + one image: err=%v, image embedded %d times", err, len(fm.encoded))
+	if err != nil || len(fm.encoded) != 2 {
+		t.Errorf("expected the image to be embedded twice")
+	}
+	fm = &c19Model{}
+	s = &Server{model: fm}
+	_, _, err = s.inputs("[user|[img-5]]", nil)
+	t.Logf("literal tag, no image: err=%v", err)
+	if err == nil || !strings.Contains(err.Error(), "invalid image index: 5") {
+		t.Errorf("expected invalid image index")
 	}
 }
